@@ -2,6 +2,7 @@ package main
 
 import (
 	"fmt"
+	"strings"
 
 	"golang.org/x/tools/go/ssa"
 )
@@ -100,10 +101,23 @@ func v3Stages(v string, match string) []stage {
 	}
 	envS2 := func(fr *FuncRun, sc *stageCtx) []CaseInst { return envS2x(fr, sc, true) }
 	envS2ground := func(fr *FuncRun, sc *stageCtx) []CaseInst { return envS2x(fr, sc, false) }
-	envS1 := func(fr *FuncRun, sc *stageCtx) []CaseInst {
+	envS1x := func(fr *FuncRun, sc *stageCtx, equalReq bool) []CaseInst {
 		var out []CaseInst
 		inner := specApp("envInner"+v+"K", fr)
 		for _, base := range objInsts(fr, sc, append(append([]string{}, v3Base...), "CR", "IR", "AR"), fixedAt(sc.rp, append(append([]string{}, v3Modified...), v3Temporal...), "X")) {
+			if equalReq {
+				// quick tier: the classes with CR = IR = AR (X, L, M, H)
+				req := func(m string) string {
+					i := strings.Index(base.Label, m+":")
+					if i < 0 {
+						return ""
+					}
+					return base.Label[i+len(m)+1 : i+len(m)+2]
+				}
+				if req("CR") != req("IR") || req("IR") != req("AR") {
+					continue
+				}
+			}
 			sub := base.Sub
 			memo := map[*Term]*Term{}
 			innerC := Subst(inner, base.Sub, memo)
@@ -116,6 +130,8 @@ func v3Stages(v string, match string) []stage {
 		}
 		return out
 	}
+	envS1 := func(fr *FuncRun, sc *stageCtx) []CaseInst { return envS1x(fr, sc, false) }
+	envS1quick := func(fr *FuncRun, sc *stageCtx) []CaseInst { return envS1x(fr, sc, true) }
 	envS1Extra := func(fr *FuncRun, sc *stageCtx) ([]*Term, []CaseGoal) {
 		var gs []CaseGoal
 		inner := specApp("envInner"+v+"K", fr)
@@ -164,6 +180,8 @@ func v3Stages(v string, match string) []stage {
 			Space: "zero-impact flag (cut) x inner Roundup value 0.0..10.0 (101 tenths, cut) x E x RL x RC = 20200, all other bits of the object open", Insts: envS2},
 		{Name: "cut-inner-x-temporal/safety", Pkg: v, Func: "(" + T + ").EnvironmentalScore", Match: `^$`, Opts: RunOpts{OnCall: cutHook},
 			Space: "float-to-int conversions of the outer Roundup: inner value (101 tenths, cut) x E x RL x RC on two representative objects (non-zero / zero impact); the inner stage's conversions are goals of the thorough stage", Insts: envS2ground},
+		{Name: "all-effective-x-equal-requirements", Pkg: v, Func: "(" + T + ").EnvironmentalScore", Match: match, Opts: RunOpts{OnCall: cutHook}, Tier: "quick",
+			Space: "8 effective base metrics x (CR = IR = AR) = 10368 of the 165888 classes of the inner stage (the thorough tier runs all of them)", Insts: envS1quick, Extra: envS1Extra},
 		{Name: "all-effective-x-CR,IR,AR", Pkg: v, Func: "(" + T + ").EnvironmentalScore", Match: match, Opts: RunOpts{OnCall: cutHook}, Tier: "thorough",
 			Space: "8 effective base metrics x CR x IR x AR = 165888 (Modified metrics X, lifted by C10)", Insts: envS1, Extra: envS1Extra},
 	}
